@@ -41,7 +41,7 @@ func runC04(p *Prog, r *Report) {
 	r.MinInstances["C04.R4"] = 6
 	r.MinInstances["C04.R5"] = 4
 	r.MinInstances["C04.R6"] = 2
-	frameRule(p, r, "C04.R1", func(fs frameSite) bool { return strings.Contains(FuncName(fs.fn), "LanceroSource") })
+	frameRule(p, r, "C04.R1", false, func(fs frameSite) bool { return strings.Contains(FuncName(fs.fn), "LanceroSource") })
 	c04R2R3(p, r)
 	c04R4(p, r)
 	c04R5(p, r)
